@@ -13,10 +13,10 @@ import (
 // Supported column types (name -> OID), per the PostgreSQL catalog.
 var OIDs = map[string]uint32{
 	"bool": 16, "bytea": 17, "name": 19, "int8": 20, "int2": 21, "int4": 23, "text": 25, "oid": 26,
-	"json": 114, "_int4": 1007, "_text": 1009, "float4": 700, "float8": 701, "varchar": 1043, "date": 1082, "timestamp": 1114, "uuid": 2950,
+	"json": 114, "_int4": 1007, "_text": 1009, "float4": 700, "jsonb": 3802, "bpchar": 1042, "timestamptz": 1184, "float8": 701, "varchar": 1043, "date": 1082, "timestamp": 1114, "uuid": 2950,
 }
 
-var TypeNames = []string{"bool", "int2", "int4", "int8", "float4", "float8", "text", "varchar", "name", "bytea", "uuid", "oid", "date", "timestamp", "json"}
+var TypeNames = []string{"bool", "int2", "int4", "int8", "float4", "float8", "text", "varchar", "name", "bytea", "uuid", "oid", "date", "timestamp", "json", "jsonb", "bpchar", "timestamptz"}
 
 var oidNames = func() map[uint32]string {
 	m := map[uint32]string{}
@@ -148,6 +148,43 @@ func parseTimestampText(s string) (int64, error) {
 		us = f
 	}
 	return ((days*24+h)*60+mi)*60*1000000 + se*1000000 + us, nil
+}
+
+// parseTimestamptzText accepts "<timestamp>Z" and "<timestamp>[+-]HH[:MM[:SS]]" (optionally followed by " BC").
+func parseTimestamptzText(s string) (int64, error) {
+	bc := ""
+	if strings.HasSuffix(s, " BC") {
+		bc, s = " BC", strings.TrimSuffix(s, " BC")
+	}
+	off := int64(0)
+	if strings.HasSuffix(s, "Z") {
+		s = strings.TrimSuffix(s, "Z")
+	} else if i := strings.LastIndexAny(s, "+-"); i > 10 {
+		sign := int64(1)
+		if s[i] == '-' {
+			sign = -1
+		}
+		parts := strings.Split(s[i+1:], ":")
+		mult := []int64{3600, 60, 1}
+		if len(parts) > 3 {
+			return 0, fmt.Errorf("timestamptz %q", s)
+		}
+		for k, p := range parts {
+			v, err := strconv.ParseInt(p, 10, 64)
+			if err != nil || len(p) != 2 {
+				return 0, fmt.Errorf("timestamptz %q", s)
+			}
+			off += sign * v * mult[k]
+		}
+		s = s[:i]
+	} else {
+		return 0, fmt.Errorf("timestamptz %q without a zone", s)
+	}
+	us, err := parseTimestampText(s + bc)
+	if err != nil {
+		return 0, err
+	}
+	return us - off*1000000, nil
 }
 
 func parseFloatText(s string, bits int) (float64, error) {
@@ -287,8 +324,24 @@ func Decode(typ string, format int16, b []byte) (any, error) {
 			return nil, err
 		}
 		return math.Float64frombits(binary.BigEndian.Uint64(b)), nil
-	case "text", "varchar", "name", "json":
+	case "text", "varchar", "name", "json", "bpchar":
 		return string(b), nil
+	case "jsonb":
+		if text {
+			return string(b), nil
+		}
+		if len(b) < 1 || b[0] != 1 {
+			return nil, fmt.Errorf("jsonb binary: missing version byte 1 in %q", trunc(b))
+		}
+		return string(b[1:]), nil
+	case "timestamptz":
+		if text {
+			return parseTimestamptzText(string(b))
+		}
+		if err := need(8); err != nil {
+			return nil, err
+		}
+		return int64(binary.BigEndian.Uint64(b)), nil
 	case "bytea":
 		if text {
 			return parseByteaText(b)
@@ -381,8 +434,18 @@ func Encode(typ string, format int16, v any) []byte {
 		b := make([]byte, 8)
 		binary.BigEndian.PutUint64(b, math.Float64bits(x))
 		return b
-	case "text", "varchar", "name", "json":
+	case "text", "varchar", "name", "json", "bpchar":
 		return []byte(v.(string))
+	case "jsonb":
+		if text {
+			return []byte(v.(string))
+		}
+		return append([]byte{1}, v.(string)...)
+	case "timestamptz":
+		if text {
+			return append(Encode("timestamp", 0, v), "+00"...)
+		}
+		return Encode("timestamp", 1, v)
 	case "bytea":
 		x := v.([]byte)
 		if text {
